@@ -773,3 +773,14 @@ def nontrivial(case, out):
 
 def matches_known(k, v):
     return False
+
+
+# ---------------------------------------------------------------- lookups inside the coordinator (engine: extra_cases)
+# "terminates with exactly one terminal result for every pattern of replies, failures and reply orderings": the lookups
+# run inside `Kademlia` (kademlia/mod.rs), which turns dial outcomes, substream failures and disconnects into the
+# engine's `register_*` calls. The c16 area drives the real coordinator; its terminal-event verdicts are this property's
+# too (seeded change C15-g2: a second lookup needing a peer that is being dialed overwrites the first one's pending
+# action, which then never terminates).
+from . import cross as _cross  # noqa: E402
+_cross.install(globals(), "C16", "Kademlia coordinator, c16 area",
+               keep=lambda v: "terminal" in v["msg"], count={"quick": 500, "thorough": 8000, "search": 1000})
